@@ -11,15 +11,13 @@
    Part 2: state-level theorems about the refresh protocol. *)
 From GV Require Import Base.AListFacts Pool.Model Pool.Observe Pool.Monitors
                        Pool.Lemmas Pool.Inv Pool.Inv2 Pool.Frames Pool.Sim Pool.InvC20 Pool.SimHome
-                       Pool.Reduce Pool.C07Refresh Pool.C07Frames Pool.C07Check.
+                       Pool.Reduce Pool.LegalRun Pool.C07Refresh Pool.C07Frames Pool.C07Check.
 From Coq Require Import Lia ZifyBool.
 Open Scope Z_scope.
 
 (* ================================================================ Part 1: the monitor *)
-(* harness-legal histories: the model answers no operation with RBadOp
-   (the guard of SimHome.monitor_legal) *)
-Definition legal (raw : option config) (ops : list (op * list nat)) : Prop :=
-  Forall (fun ev => ev_ret ev <> RBadOp) (run raw init_bal ops).
+(* harness-legal histories: [LegalRun.legal], the model answers no operation with
+   RBadOp (the guard of SimHome.monitor_legal) *)
 
 Definition Inv07 (s : bal) : Prop := Inv s /\ Quiescent s /\ InvU s.
 
@@ -347,33 +345,42 @@ Example swap_unblock_counterexample :
 Proof. vm_compute. repeat split; reflexivity. Qed.
 
 (* (b) deCalls = 2^32 - 1: the model's counter wraps to 0 and no refresh is attempted,
-       the monitor's rule (ucalls <= deCalls + 1) demands one.  One legal Done from a
-       state that satisfies the invariant. *)
-Definition wrap_state : bal :=
-  mkBal (Some (mkConfig 1 4 100 false 10 1 false [])) 1 1 0 0 Ready [] [] [(0%N, Ready)] [(0%N, 0%nat)]
-        [mkSlot 0 0 1 0 4294967295 false 0]
-        4294967295 [] true (PSnap [0%nat]) [PSnap [0%nat]]
-        [mkPick 0 5 (Some 6) false BOUND 0 false true PPlaced] 20000001 1 false false [].
+       the monitor's rule (ucalls <= deCalls + 1) demands one.  One legal Done from
+       [wrap_state de]: the state reached by a legal prefix, with only the deCalls
+       counter of the channel set to [de]; [wrap_ms] is the monitor's bookkeeping
+       after that prefix. *)
+Definition wrap_raw : option config := Some (mkConfig 1 4 100 false 10 1 false []).
 
-Definition wrap_ms : mstate :=
-  mkMstate [PSnap [0%nat]] (Some (Ready, PSnap [0%nat]))
-           [mkMpick 0 BOUND 0 false true (Some 6) false 5 PPlaced] [] [(0%N, 1%N)] [(0%N, true)] false
-           (Some (Some (mkConfig 1 4 100 false 10 1 false []))) 0.
+Definition wrap_prefix : list (op * list nat) :=
+  [(OpResolver 1 CfgVal, []); (OpConnState 0 Ready, []); (OpAdvance 5, []);
+   (OpPick 0 0 false [] (Some 6) false, []); (OpAdvance 19999996, [])].
+
+Definition wrap_state (de : Z) : bal :=
+  upd_slot (run_state wrap_raw init_bal wrap_prefix) 0 (fun r => sl_set_de r de).
+
+Fixpoint ms_after (raw : option config) (ms : mstate) (before : obs) (tr : list event) : mstate :=
+  match tr with
+  | [] => ms
+  | ev :: r => match ev_obs ev with
+               | Some after => ms_after raw (track raw ms before ev after) after r
+               | None => ms
+               end
+  end.
+
+Definition wrap_ms : mstate := ms_after wrap_raw ms_init (observe init_bal) (run wrap_raw init_bal wrap_prefix).
 
 Example de_wrap_counterexample :
-  let raw := Some (mkConfig 1 4 100 false 10 1 false []) in
-  mon_from P07 raw wrap_ms (observe wrap_state) (run raw wrap_state [(OpDone 0 DDeadlineClient [], [])]) = false /\
-  map ev_ret (run raw wrap_state [(OpDone 0 DDeadlineClient [], [])]) = [RNone] /\
-  map ev_out (run raw wrap_state [(OpDone 0 DDeadlineClient [], [])]) = [[]].
+  let step de := run wrap_raw (wrap_state de) [(OpDone 0 DDeadlineClient [], [])] in
+  (* deCalls = 0 is the reachable state itself *)
+  wrap_state 0 = run_state wrap_raw init_bal wrap_prefix /\
+  map sl_de (b_slots (wrap_state 4294967295)) = [4294967295] /\
+  (* one below the maximum: refresh by rule, accepted *)
+  map ev_ret (step 4294967294) = [RNone] /\ map ev_out (step 4294967294) = [[ONewSC 1 1; OConnect 1]] /\
+  mon_from P07 wrap_raw wrap_ms (observe (wrap_state 4294967294)) (step 4294967294) = true /\
+  (* at the maximum: the counter wraps, no refresh, rejected *)
+  map ev_ret (step 4294967295) = [RNone] /\ map ev_out (step 4294967295) = [[]] /\
+  mon_from P07 wrap_raw wrap_ms (observe (wrap_state 4294967295)) (step 4294967295) = false.
 Proof. vm_compute. repeat split; reflexivity. Qed.
-
-(* wrap_state is a reachable state in which only deCalls was set to its maximum *)
-Example wrap_state_reachable_up_to_de :
-  let raw := Some (mkConfig 1 4 100 false 10 1 false []) in
-  let prefix := [(OpResolver 1 CfgVal, []); (OpConnState 0 Ready, []); (OpAdvance 5, []);
-                 (OpPick 0 0 false [] (Some 6) false, []); (OpAdvance 19999996, [])] in
-  wrap_state = upd_slot (run_state raw init_bal prefix) 0 (fun r => sl_set_de r 4294967295).
-Proof. vm_compute. reflexivity. Qed.
 
 (* ================================================================ helpers for hand-made bad traces (Props_C07.v) *)
 Definition ev_with_out (outs : list out) (ev : event) : event :=
